@@ -209,3 +209,23 @@ B("c17-action-spec", "C17", "C17.R1", (L + "rubiks_cube/env.py", "RubiksCube.act
 B("c17-sliding-swap-lost", "C17", "C17.R5", (L + "sliding_tile_puzzle/env.py", "SlidingTilePuzzle._move_empty_tile", "expr", "puzzle[tuple(new_empty_tile_position)]", "puzzle[tuple(empty_tile_position)]"))
 B("c17-sliding-walk-unmasked", "C17", "C17.R5", (L + "sliding_tile_puzzle/generator.py", "RandomWalkGenerator._make_random_move", "expr", "jax.random.choice(key, MOVES, shape=(), p=valid_moves_mask)", "jax.random.choice(key, MOVES, shape=())"))
 T("c17-twin-arange-flip-flip", "C17", (RU, "generate_front_move", "expr", "jnp.flip(jnp.arange(cube_size))", "jnp.flip(jnp.flip(jnp.flip(jnp.arange(cube_size))))", 1))
+
+# ---------------------------------------------------------------- C06
+B("c06-knapsack-no-fit-guard", "C06", "C06.R1", (P + "knapsack/env.py", "Knapsack.step", "expr", "item_fits & item_not_packed", "item_not_packed"))
+B("c06-cvrp-capacity-strict", "C06", "C06.R1", (R + "cvrp/env.py", "CVRP.step", "expr", "state.capacity >= state.demands[action]", "state.capacity + 1 >= state.demands[action]"))
+B("c06-tsp-revisit", "C06", "C06.R2", (R + "tsp/env.py", "TSP.step", "expr", "~state.visited_mask[action]", "~state.visited_mask[0]"))
+B("c06-knapsack-budget-init", "C06", "C06.R1", (P + "knapsack/generator.py", "RandomGenerator.__call__", "expr", "jnp.array(self.total_budget, float)", "jnp.array(2 * self.total_budget, float)"))
+B("c06-sudoku-box-table", "C06", "C06.R3", (L + "sudoku/constants.py", "", "expr", "[6, 7, 8, 15, 16, 17, 24, 25, 26]", "[6, 7, 8, 15, 16, 17, 24, 25, 27]"))
+B("c06-graph-stale", "C06", "C06.R4", (L + "graph_coloring/env.py", "GraphColoring.step", "expr", "self._get_valid_actions(next_node_index, state.adj_matrix, colors)", "self._get_valid_actions(next_node_index, state.adj_matrix, state.colors)"))
+T("c06-twin-knapsack-flip", "C06", (P + "knapsack/env.py", "Knapsack.step", "expr", "item_fits & item_not_packed", "item_not_packed & item_fits"))
+B("c15-gym-term-one-minus", "C15", "C15.R3", (W, "JumanjiToGymWrapper.__init__.step", "expr", "~timestep.discount.astype(bool)", "(1 - timestep.discount).astype(bool)"))
+B("c15-conv-high-plus-one", "C15", "C15.R4", ("jumanji/specs.py", "jumanji_specs_to_gym_spaces", "insert_after", "high = np.broadcast_to(spec.maximum, shape=spec.shape)", "high = high + 1"))
+B("c07-tetris-slice-extent", "C07", "C07.R1", (P + "tetris/env.py", "Tetris.step", "expr", "grid_padded[:, :self.num_cols]", "grid_padded[:, :self.num_rows]"))
+
+# ---------------------------------------------------------------- C10
+B("c10-tsp-constant-key", "C10", "C10.R1a", (R + "tsp/generator.py", "UniformGenerator.__call__", "kwarg", "key", "key", "jax.random.PRNGKey(0)"))
+B("c10-maze-ignores-key", "C10", "C10.R1b", (R + "maze/generator.py", "RandomGenerator.__call__", "insert_first", "key = jax.random.PRNGKey(0)"))
+B("c10-minesweeper-replace", "C10", "C10.R2", (L + "minesweeper/utils.py", "create_flat_mine_locations", "kwarg", "replace", "False", "True"))
+B("c10-lbf-agents-replace", "C10", "C10.R2", (R + "lbf/generator.py", "RandomGenerator", "kwarg", "replace", "False", "True"))
+B("c10-knapsack-weights-range", "C10", "C10.R3", (P + "knapsack/generator.py", "RandomGenerator.__call__", "kwarg", "maxval", "1", "2"))
+T("c10-twin-split-more", "C10", (R + "tsp/generator.py", "UniformGenerator.__call__", "expr", "jax.random.split(key)", "jax.random.split(key, 2)"))
